@@ -38,6 +38,9 @@ type XCase struct {
 	// LayoutS / LayoutD: element order used by the source-node / destination-node exporter
 	LayoutS int `json:"layout_s,omitempty"`
 	LayoutD int `json:"layout_d,omitempty"`
+	// MaxRetries, when set, is assigned to the package's exported MaxRetries setting for this
+	// history (unset: the default of 2)
+	MaxRetries *int `json:"max_retries,omitempty"`
 }
 
 // XStats is what a run observed.
@@ -54,6 +57,11 @@ func RunX(c XCase, st *XStats) *ev.Failure {
 	}
 	st.firstSides = map[string]bool{}
 	a, in := time.Duration(c.ActiveSec)*time.Second, time.Duration(c.InactiveSec)*time.Second
+	intermediate.MaxRetries = 2
+	if c.MaxRetries != nil {
+		intermediate.MaxRetries = *c.MaxRetries
+	}
+	defer func() { intermediate.MaxRetries = 2 }()
 	ap := New(a, in, nil, 1)
 	m := NewXModel(a, in, intermediate.MaxRetries)
 	keyToFlow := map[intermediate.FlowKey]int{}
